@@ -145,7 +145,9 @@ def call(case, dense, shape_arg, rma, weights_scale=None):
     arrs = []
     for i, a in enumerate(dense):
         dt = case["xdtypes"][i]
-        if a.size and int(a.max()) > numpy.iinfo(dt).max:
+        if dt == "bool":
+            dt = "bool" if (not a.size or int(a.max()) <= 1) else "uint8"
+        if dt != "bool" and a.size and int(a.max()) > numpy.iinfo(dt).max:
             dt = "int64"
         arrs.append(a.astype(dt))
     if case["fact"]["dtype"] == "datetime":
